@@ -59,14 +59,14 @@ def sweep(rng):
     return out
 
 
-def check_parsed(rec, text):
+def check_parsed(rec, text, big=False):
     """parse `text` on a fresh parser and run the print/re-parse oracle on the tree"""
     try:
         root = D.parse(text)
     except Exception:
         return None
     sh = S.shadow(root)
-    if D.too_big(sh):
+    if D.too_big(sh, big):
         return None
     rec.ev()
     try:
@@ -100,13 +100,15 @@ def run(rec, cfg):
         if cfg.out_of_time():
             rec.truncated = True
             break
-        root = check_parsed(rec, text)
+        big = src == "big-text"
+        use = RC.rules_for(src, rules)
+        root = check_parsed(rec, text, big)
         if root is None:
             continue
         rec.arm("start:" + src)
         k += 1
         MR.HINTS[:] = hints
-        if k % 4 == 0:
+        if k % 4 == 0 and not big:
             ep = D.Episode(root, rng, policy=rng.choice(["balanced", "novelty"]))
             for _ in range(rng.randint(10, 40)):
                 r = ep.next(rec, rules)
@@ -118,8 +120,8 @@ def run(rec, cfg):
             for depth in range(3):
                 nxt = []
                 for r in frontier:
-                    for label, idx, new_root in D.apply_everywhere(rec, r, rules, rng, cap=6 if depth == 0 else 2):
-                        if new_root is not None and not D.too_big(S.shadow(new_root)):
+                    for label, idx, new_root in D.apply_everywhere(rec, r, use, rng, cap=6 if depth == 0 else 2):
+                        if new_root is not None and not D.too_big(S.shadow(new_root), big):
                             nxt.append(new_root)
                 if not nxt:
                     break
